@@ -142,7 +142,23 @@ def from_document(prog, fn, t):
         if t.k == "proj":
             t = t.a[0]; continue
         if t.k == "field":
-            t = t.a[0]; continue
+            base, name = t.a
+            alts = list(base.a) if base.k == "phi" else [base]
+            comps = []
+            for a_ in alts:
+                if a_.k == "adt" and name in dict(a_.a[2]):
+                    comps.append(dict(a_.a[2])[name])
+                elif a_.k == "tuple" and name.isdigit() and int(name) < len(a_.a):
+                    comps.append(a_.a[int(name)])
+                else:
+                    comps = None
+                    break
+            if comps:
+                # the named component of a record / tuple that is constructed right here
+                res = [from_document(prog, fn, x) for x in comps]
+                bad = [w for ok, w in res if not ok]
+                return (not bad), (bad[0] if bad else res[0][1])
+            t = base; continue
         if t.k == "index":
             t = t.a[0]; continue
         if t.k == "call" and t.a[0].startswith(QT + "::") and len(t.a) >= 2:
@@ -229,7 +245,8 @@ def r2(prog, ev, rep):
     for e in exp:
         if e not in prog.bodies:
             continue
-        et = ev.summary(e)
+        from vflib.terms import deep_distribute
+        et = deep_distribute(ev.summary(e))
         for x in subterms(et):
             if x.k == "match" and x.a[0].k == "call" and x.a[0].a[0] in (QT + "::as_array", QT + "::as_object"):
                 kind = x.a[0].a[0].rsplit("::", 1)[1]
